@@ -5,6 +5,7 @@ package session
 // and everything the session transmits is read back from the handler's outbound queue.
 
 import (
+	"sync"
 	"context"
 	"errors"
 	"strconv"
@@ -49,6 +50,7 @@ type fx struct {
 	s      *Session
 	st     *memory.Storage
 	events map[utils.Event]int
+	evMu   sync.Mutex
 	approve func(*LogonSettings) error
 	logonCalls int
 }
@@ -57,7 +59,13 @@ func (f *fx) watch() {
 	f.events = map[utils.Event]int{}
 	for _, ev := range []utils.Event{utils.EventDisconnect, utils.EventLogon, utils.EventRequest, utils.EventLogout} {
 		e := ev
-		f.s.OnChangeState(e, func() bool { f.events[e]++; return true })
+		f.s.OnChangeState(e, func() bool {
+			// events may be delivered from several goroutines (inbound dispatch, timers, application)
+			f.evMu.Lock()
+			f.events[e]++
+			f.evMu.Unlock()
+			return true
+		})
 	}
 }
 
